@@ -2,6 +2,7 @@ import WorkflowModel.Model.Routing
 import WorkflowModel.Model.RunState
 import WorkflowModel.Model.Graph
 import WorkflowModel.Model.Engine
+import WorkflowModel.Model.Adapters.RefStore
 /-! Line-protocol driver for the correspondence check (T3). One command per input line, one answer per
 output line. Core-only imports, so it links as `lean_exe wfdriver`. Unknown commands answer `bad-op`
 (never a default). -/
@@ -196,27 +197,66 @@ def answer (cfg : Cfg) (s : Sys) (a : Act) : Sys × String :=
 
 end EngDrv
 
-partial def loop (h : IO.FS.Stream) (out : IO.FS.Stream) (cfg : WorkflowModel.Engine.Cfg) (sys : WorkflowModel.Engine.Sys) : IO Unit := do
+namespace RsDrv
+open WorkflowModel.RefStore
+
+def recStr (r : SRec) : String := s!"{r.wf}:{r.fid}:{r.rid}:{r.rs}:{r.st}:{r.obj}:{r.ver}"
+def optRec : Option SRec → String
+  | none => "nf"
+  | some r => recStr r
+
+def parseNats (v : String) : Option (Option (List Nat)) :=
+  if v == "-" then some none else do some (some (← (v.splitOn ",").mapM String.toNat?))
+def parseInts (v : String) : Option (Option (List Int)) :=
+  if v == "-" then some none else do some (some (← (v.splitOn ",").mapM String.toInt?))
+
+def step (s : Store) (args : List String) : Option (Store × String) :=
+  match args with
+  | ["reset"] => some ({}, "ok")
+  | ["store", wf, fid, rid, rs, st, obj, ver] => do
+    let r : SRec := ⟨← wf.toNat?, ← fid.toNat?, ← rid.toNat?, ← rs.toInt?, ← st.toInt?, ← obj.toNat?, ← ver.toNat?⟩
+    some (s.store r, "ok")
+  | ["lookup", rid] => do some (s, optRec (s.lookup (← rid.toNat?)))
+  | ["latest", wf, fid] => do some (s, optRec (s.latest (← wf.toNat?) (← fid.toNat?)))
+  | ["list", wf, off, lim, ord, fids, sts, rss] => do
+    let w ← if wf == "-" then some none else (do some (some (← wf.toNat?)))
+    let f : Filter := { fids := ← parseNats fids, sts := ← parseInts sts, rss := ← parseInts rss }
+    let l := s.list w (← off.toNat?) (← lim.toNat?) (ord == "desc") f
+    some (s, if l.isEmpty then "-" else ",".intercalate (l.map (fun r => recStr r)))
+  | ["outbox", wf, lim] => do
+    let l := s.listOutbox (← wf.toNat?) (← lim.toInt?)
+    some (s, if l.isEmpty then "-" else ",".intercalate (l.map (fun e => s!"{e.id}={recStr e.srec}")))
+  | ["delout", id] => do some (s.deleteOutbox (← id.toNat?), "ok")
+  | _ => none
+
+end RsDrv
+
+partial def loop (h : IO.FS.Stream) (out : IO.FS.Stream) (cfg : WorkflowModel.Engine.Cfg) (sys : WorkflowModel.Engine.Sys)
+    (rs : WorkflowModel.RefStore.Store := {}) : IO Unit := do
   let line ← h.getLine
   if line.isEmpty then return ()
   let args := (line.trimAscii.toString.splitOn " ").filter (· ≠ "")
   match args with
   | "cfg" :: rest =>
     match EngDrv.parseCfg rest with
-    | some c => out.putStrLn "ok"; out.flush; loop h out c {}
-    | none => out.putStrLn "bad-op"; out.flush; loop h out cfg sys
+    | some c => out.putStrLn "ok"; out.flush; loop h out c {} rs
+    | none => out.putStrLn "bad-op"; out.flush; loop h out cfg sys rs
   | "act" :: rest =>
     match EngDrv.parseAct rest with
     | some a =>
       let (sys', ans) := EngDrv.answer cfg sys a
-      out.putStrLn ans; out.flush; loop h out cfg sys'
-    | none => out.putStrLn "bad-op"; out.flush; loop h out cfg sys
+      out.putStrLn ans; out.flush; loop h out cfg sys' rs
+    | none => out.putStrLn "bad-op"; out.flush; loop h out cfg sys rs
+  | "rs" :: rest =>
+    match RsDrv.step rs rest with
+    | some (rs', ans) => out.putStrLn ans; out.flush; loop h out cfg sys rs'
+    | none => out.putStrLn "bad-op"; out.flush; loop h out cfg sys rs
   | _ =>
     let ans := match Drv.pure args with
       | some s => s
       | none => "bad-op"
     out.putStrLn ans
     out.flush
-    loop h out cfg sys
+    loop h out cfg sys rs
 
 def main : IO Unit := do loop (← IO.getStdin) (← IO.getStdout) {} {}
